@@ -209,6 +209,12 @@ func c07Gen(t *rapid.T) c07Case {
 		c.Ops = append(c.Ops, down()...)
 		c.Ops = append(c.Ops, c07Op{Kind: "age", User: u, Hours: 50, Store: store}, c07Op{Kind: "login", User: u, Pw: "current"},
 			c07Op{Kind: "age", User: u, Hours: 50, Store: store}, c07Op{Kind: "login", User: u, Pw: "current"})
+	case 8: // the directory answers while the primary store is unreachable: its verdict is still final
+		c.Ops = append(c.Ops, up...)
+		c.Ops = append(c.Ops, c07Op{Kind: "login", User: u, Pw: "current"}, c07Op{Kind: "sync"}, c07Op{Kind: "change", User: u},
+			c07Op{Kind: "outage", On: true}, c07Op{Kind: "login", User: u, Pw: "old"}, c07Op{Kind: "login", User: u, Pw: "current"})
+		c.Ops = append(c.Ops, maybe("d8", down()...)...)
+		c.Ops = append(c.Ops, c07Op{Kind: "login", User: u, Pw: "old"})
 	case 7: // a validly signed record filed under a name that differs only by case
 		c.NoNorm = true
 		c.Ops = append(c.Ops, up...)
